@@ -4,6 +4,10 @@ import json, os
 HERE = os.path.dirname(os.path.abspath(__file__))
 props = [json.loads(l) for l in open(os.path.join(HERE, 'properties.jsonl'))]
 CLAIMED = {
+ 'C17': dict(level='model_checking', design='DESIGN.md §4 C17, §10',
+   text='TLC checks on tla/Repository.tla that the implementation-shaped layer of girepository.c (get_registered_status, find_namespace_version/latest with parse_version transcribed on characters, require_internal, register_internal, load_dependencies_recurse, g_irepository_load_typelib) satisfies the 23 named clauses of C17 (election, precedence of prepended directories, hit/conflict/not-found/refused, dependency closure, failed calls, reports) on universes of 3 namespaces x 4-9 version strings x 2-3 directories with mismatching copies, diamond/conflicting dependency graphs and unparseable names, histories of <=3 calls, with Known = {}; what-if switches (Dev) re-enable each of the four repaired deviations and TLC must then produce a counterexample. The same clauses judge traces of the REAL libgirepository (one fresh process per history, typelibs compiled by /repo g-ir-compiler): the what-if counterexamples, all 2-call histories over the exported call alphabet (quick: seeded sample), tlc -simulate behaviours of depth 12 and seeded random worlds of <=6 directories and <=30 calls, validated event by event by RepositoryTrace.tla (set of possible model states carried along; invariants OneVersionPerNs, DepsClosed in every state).',
+   note='trusted: GLib declaration shim (cshim/), harness projection of paths and dependency strings, acyclic dependency relation over (namespace, version) (the C code recurses without bound on a cycle), files do not change during a history; behaviour beyond the statement (enumerate_versions listing the loaded version) is reported as a note, never as a verdict',
+   technique='TLA+ model checking (TLC) + trace validation of the real library (one process per call history) against the property layer'),
  'C02': dict(level='model_checking', design='DESIGN.md §4 C02, §10',
    text='TLC checks on tla/Defaults.tla (DefaultsMC) that the transcribed type table / canonicalisation / c:type reconstruction / transfer, nullability and callback-role defaults imply the stated defaults for every spelling (base word x pointer depth 0-3 x const/volatile per level) in parameter, return, field and constant position and for every arrangement of <=5 parameters drawn from {callback, user_data, other gpointer, destroy notify, async-ready callback, int, GError**} x {function, method, callback typedef}; TLC exports those cases, the harness renders them (quick: seeded stratified sample, thorough: all, plus seeded random longer parameter lists) into un-annotated declarations, the real Transformer/MainTransformer/IntrospectablePass/GIRWriter scan them and TLC (DefaultsTrace.tla) judges the projected GIR clause by clause (TypeName, CTypeKept, StrvArray, Container, InNone, OutFull, RetBasicNone, RetConstNone, RetStringFull, PtrNullable, Throws, Closure, Destroy, NotifiedScope, AsyncScope, UserDataNullable).',
    note='trusted: symgen conventions of harness/scan.py (the yacc C parser cannot be built here), synthetic GLib/GObject/Gio dependency GIRs, c:type compared as (base words, depth, qualifier set per level); out/inout defaults are reached through one bare direction annotation',
